@@ -198,7 +198,6 @@ jc_key_len_ok(const IMB_CIPHER_MODE m, const uint64_t k, const IMB_JOB *j)
         case IMB_CIPHER_CFB:
         case IMB_CIPHER_GCM:
         case IMB_CIPHER_GCM_SGL:
-        case IMB_CIPHER_CBCS_1_9: /* see DESIGN.md F4: only AES-128 kernels exist */
                 return k == 16 || k == 24 || k == 32;
         case IMB_CIPHER_DOCSIS_SEC_BPI:
         case IMB_CIPHER_CCM:
@@ -215,6 +214,7 @@ jc_key_len_ok(const IMB_CIPHER_MODE m, const uint64_t k, const IMB_JOB *j)
         case IMB_CIPHER_SM4_CBC:
         case IMB_CIPHER_SM4_CNTR:
         case IMB_CIPHER_SM4_GCM:
+        case IMB_CIPHER_CBCS_1_9: /* README Table 1: AES128-CBCS only */
                 return k == 16;
         case IMB_CIPHER_CHACHA20:
         case IMB_CIPHER_CHACHA20_POLY1305:
